@@ -90,30 +90,30 @@ type spec struct {
 }
 
 type bres struct {
-	Case     bcase   `json:"case"`
-	Job      int     `json:"job"`
-	N        int64   `json:"n,omitempty"` // cut position (bytes delivered to the follower)
-	L        int64   `json:"l,omitempty"` // length of the inter-node stream
-	CutFired bool    `json:"cut_fired,omitempty"`
-	Attempts int     `json:"attempts,omitempty"`
+	Case     bcase `json:"case"`
+	Job      int   `json:"job"`
+	N        int64 `json:"n,omitempty"` // cut position (bytes delivered to the follower)
+	L        int64 `json:"l,omitempty"` // length of the inter-node stream
+	CutFired bool  `json:"cut_fired,omitempty"`
+	Attempts int   `json:"attempts,omitempty"`
 	// eof/rst cuts: what the follower's inter-node client did during the request
-	ConnsUsed int   `json:"conns_used,omitempty"` // connections it sent the backup command on
-	ConnsCut  int   `json:"conns_cut,omitempty"`  // of those, how many failed at the cut position
-	CutPooled bool  `json:"cut_pooled,omitempty"` // the first cut hit a connection that had served an earlier request
-	RefLen    int64 `json:"ref_len,omitempty"`    // length of the complete (uncut) body for this request on the quiescent database
-	Status   int     `json:"status"`
-	ReqErr   string  `json:"req_err,omitempty"`  // no response headers
-	BodyErr  string  `json:"body_err,omitempty"` // response aborted while the body was read
-	BodyLen  int     `json:"body_len"`
-	ErrText  string  `json:"err_text,omitempty"` // body of a non-200
-	ServedBy string  `json:"served_by,omitempty"`
-	Ms       float64 `json:"ms"`
-	LB       []int64 `json:"acked_at_start,omitempty"`
-	UB       []int64 `json:"started_at_end,omitempty"`
-	Exam     *exam   `json:"exam,omitempty"`
-	PIT      string  `json:"pit,omitempty"` // why the vector is not a single point of the commit order
-	Inconcl  string  `json:"inconclusive,omitempty"`
-	Storm    bool    `json:"storm,omitempty"`
+	ConnsUsed int     `json:"conns_used,omitempty"` // connections it sent the backup command on
+	ConnsCut  int     `json:"conns_cut,omitempty"`  // of those, how many failed at the cut position
+	CutPooled bool    `json:"cut_pooled,omitempty"` // the first cut hit a connection that had served an earlier request
+	RefLen    int64   `json:"ref_len,omitempty"`    // length of the complete (uncut) body for this request on the quiescent database
+	Status    int     `json:"status"`
+	ReqErr    string  `json:"req_err,omitempty"`  // no response headers
+	BodyErr   string  `json:"body_err,omitempty"` // response aborted while the body was read
+	BodyLen   int     `json:"body_len"`
+	ErrText   string  `json:"err_text,omitempty"` // body of a non-200
+	ServedBy  string  `json:"served_by,omitempty"`
+	Ms        float64 `json:"ms"`
+	LB        []int64 `json:"acked_at_start,omitempty"`
+	UB        []int64 `json:"started_at_end,omitempty"`
+	Exam      *exam   `json:"exam,omitempty"`
+	PIT       string  `json:"pit,omitempty"` // why the vector is not a single point of the commit order
+	Inconcl   string  `json:"inconclusive,omitempty"`
+	Storm     bool    `json:"storm,omitempty"`
 }
 
 type jobres struct {
